@@ -14,8 +14,10 @@ import PFV.Proofs.MutFacts
 import PFV.Proofs.GenTotal
 import PFV.Proofs.GenRun
 import PFV.Proofs.LexEnc
+import PFV.Proofs.GenFrame
 import PFV.Api
 import PFV.Reach
+import PFV.Front
 namespace PFV
 open Ref (RKind RState RMemo)
 
@@ -768,4 +770,191 @@ theorem header_and_stop (c : Cfg) (table : List Op) (is : List Instr) (h : Run c
   simp
 
 end C12
+end PFV
+
+namespace PFV
+open Mutators
+
+/-- every instruction the exact generator writes after the header satisfies `P`, provided the
+opcodes the guards can select, the int-like opcodes, the type-confusion replacements and the
+collapse/STOP opcodes do — for EVERY configuration, unsafe mutations included -/
+theorem instrs_ops {σ} (E : Entropy σ) (X : G.Ext) (c : Cfg) (P : Op → Prop)
+    (hvalid : ∀ sim, sim.protoEmitted = decide (c.version ≥ 2) → ∀ o ∈ validOps (Gen.table c.version) c sim, P o)
+    (hint : ∀ o, G.isIntLike o = true → P o) (htc : ∀ o, G.tcOp o = true → P o)
+    (htail : P .tuple ∧ P .pnone ∧ P .pop ∧ P .tuple2 ∧ P .tuple3 ∧ P .stop)
+    (s s' : σ) (r : G.Result) (h : G.generate E X c s = .ok (r, s')) : ∀ i ∈ r.instrs, P i.op := by
+  simp only [G.generate] at h
+  split at h
+  · simp at h
+  · rename_i g s3 hb
+    simp only [Except.ok.injEq, Prod.mk.injEq] at h
+    obtain ⟨hr, _⟩ := h
+    subst hr
+    have hbody := G.bodyLoop_ops E X c P hint htc _ { sim := initState c.version } g _ s3
+      (fun sim hs => hvalid sim (by simpa [initState] using hs)) (by simp) hb
+    obtain ⟨_, _, _, c4⟩ := cleanup_spec c g.sim
+    intro i hi
+    simp only [List.mem_append, List.mem_reverse, List.mem_singleton, plain, List.mem_map] at hi
+    rcases hi with (hi | ⟨o, ho, rfl⟩) | rfl
+    · exact hbody i hi
+    · rcases c4 o ho with rfl | rfl | ⟨_, rfl⟩ | ⟨_, rfl | rfl⟩
+      · exact htail.1
+      · exact htail.2.1
+      · exact htail.2.2.1
+      · exact htail.2.2.2.1
+      · exact htail.2.2.2.2.1
+    · exact htail.2.2.2.2.2
+
+/-! ## C06 — FRAME -/
+namespace C06
+
+/-- **C06.**  For every configuration (unsafe mutations and type confusion included), every
+entropy source and every result of the exact generator: the bytes are
+`[PROTO v]` (v ≥ 2) `++ [FRAME, 8-byte little-endian length]` (only if the frame coin was drawn,
+which needs v ≥ 4) `++ body`, the length is exactly the number of body bytes (everything after the
+FRAME argument, STOP included), and no FRAME (nor PROTO) instruction occurs inside the body. -/
+theorem frame_layout {σ} (E : Entropy σ) (X : G.Ext) (c : Cfg) (s s' : σ) (r : G.Result)
+    (h : G.generate E X c s = .ok (r, s')) :
+    r.bytes = (if c.version ≥ 2 then [Gen.asU8 .proto] ++ Enc.le 1 c.version else []) ++
+              (if r.framed then [Gen.asU8 .frame] ++ Enc.le 8 (r.instrs.flatMap Enc.encode).length else []) ++
+              r.instrs.flatMap Enc.encode ∧
+    (r.framed = true → c.version ≥ 4) ∧
+    (∀ i ∈ r.instrs, i.op ≠ .frame ∧ i.op ≠ .proto) := by
+  refine ⟨?_, ?_, ?_⟩
+  · simp only [G.generate] at h
+    split at h
+    · simp at h
+    · simp only [Except.ok.injEq, Prod.mk.injEq] at h
+      obtain ⟨hr, _⟩ := h
+      subst hr
+      simp only [Enc.encode, protoInstr, Enc.encodeArg]
+      split <;> simp
+  · simp only [G.generate] at h
+    split at h
+    · simp at h
+    · simp only [Except.ok.injEq, Prod.mk.injEq] at h
+      obtain ⟨hr, _⟩ := h
+      subst hr
+      simp only
+      intro hf
+      by_cases hv : c.version ≥ 4
+      · exact hv
+      · simp [hv] at hf
+  · apply instrs_ops E X c (fun o => o ≠ .frame ∧ o ≠ .proto) _ _ _ _ s s' r h
+    · intro sim hpe o ho
+      have hc := (List.mem_filter.mp ho).2
+      have hm := (List.mem_filter.mp ho).1
+      constructor
+      · intro e; subst e; simp [canEmit] at hc
+      · intro e; subst e
+        by_cases hv : c.version ≥ 2
+        · simp [canEmit, hpe, hv] at hc
+        · exact C05.no_proto_below_2 c.version (by omega) hm
+    · intro o ho; cases o <;> simp [G.isIntLike] at ho <;> simp
+    · intro o ho; cases o <;> simp [G.tcOp] at ho <;> simp
+    · simp
+
+end C06
+
+namespace C10
+/-- **C10 for every configuration** (unsafe mutations and type confusion included): an EXT*
+instruction is written only if EXT opcodes were enabled, a buffer instruction only if buffer
+opcodes were enabled. -/
+theorem optin_any_config {σ} (E : Entropy σ) (X : G.Ext) (c : Cfg) (s s' : σ) (r : G.Result)
+    (h : G.generate E X c s = .ok (r, s')) :
+    ∀ i ∈ r.instrs, (Spec.isExt i.op = true → c.allowExt = true) ∧ (Spec.isBuffer i.op = true → c.allowBuf = true) := by
+  apply instrs_ops E X c (fun o => (Spec.isExt o = true → c.allowExt = true) ∧ (Spec.isBuffer o = true → c.allowBuf = true))
+    _ _ _ _ s s' r h
+  · intro sim _ o ho
+    have hc := (List.mem_filter.mp ho).2
+    constructor
+    · intro he
+      simp only [Spec.isExt, Bool.or_eq_true, beq_iff_eq] at he
+      rcases he with (he | he) | he <;> (rw [he] at hc; simpa [canEmit] using hc)
+    · intro he
+      simp only [Spec.isBuffer, Bool.or_eq_true, beq_iff_eq] at he
+      rcases he with he | he
+      · rw [he] at hc; simpa [canEmit] using hc
+      · rw [he] at hc; simp only [canEmit, Bool.and_eq_true] at hc; exact hc.1
+  · intro o ho; cases o <;> simp [G.isIntLike] at ho <;> simp [Spec.isExt, Spec.isBuffer]
+  · intro o ho; cases o <;> simp [G.tcOp] at ho <;> simp [Spec.isExt, Spec.isBuffer]
+  · simp [Spec.isExt, Spec.isBuffer]
+end C10
+
+end PFV
+
+namespace PFV
+/-! ## C13 — the front ends denote the library configuration their options name -/
+namespace C13
+open Front
+
+/-- **C13 (CLI).**  For every combination of parsed options and every seed, the generator main.rs
+builds (single-file mode and each batch sample) is the one the documented options denote. -/
+theorem cli_forwards (a : CliArgs) (seed : Nat) :
+    (cliCfg a seed).cfg.version = (specCfg a seed).cfg.version ∧
+    (cliCfg a seed).cfg.minOps = (specCfg a seed).cfg.minOps ∧
+    (cliCfg a seed).cfg.maxOps = (specCfg a seed).cfg.maxOps ∧
+    (cliCfg a seed).cfg.mutators = (specCfg a seed).cfg.mutators ∧
+    (cliCfg a seed).cfg.rateBits = (specCfg a seed).cfg.rateBits ∧
+    (cliCfg a seed).cfg.unsafeMut = (specCfg a seed).cfg.unsafeMut ∧
+    (cliCfg a seed).cfg.allowExt = (specCfg a seed).cfg.allowExt ∧
+    (cliCfg a seed).cfg.allowBuf = (specCfg a seed).cfg.allowBuf ∧
+    (cliCfg a seed).seed = (specCfg a seed).seed := by
+  refine ⟨?_, rfl, rfl, rfl, rfl, rfl, rfl, rfl, rfl⟩
+  simp only [cliCfg, specCfg, version]
+  cases a.protocol <;> rfl
+
+/-- no protocol but a seed ⇒ protocol = seed mod 6 -/
+theorem protocol_from_seed (a : CliArgs) (seed : Nat) (h : a.protocol = none) :
+    (cliCfg a seed).cfg.version = seed % 6 := by
+  simp [cliCfg, version, h]
+
+/-- `all` expands to the six safe kinds, plus memoindex exactly in unsafe mode, each created with
+the unsafe flag -/
+theorem all_expands (u : Bool) :
+    ((expand { mutators := [.all], unsafeM := u }).filterMap (create u)) =
+      [.bitflip, .boundary, .offbyone, .stringlen, .character, .typeconfusion u] ++
+        (if u then [.memoindex u] else []) := by
+  cases u <;> rfl
+
+/-- `all_mutators` in the model is the translated one -/
+theorem all_mutators_translated :
+    Gen.allMutatorsSafe = ["Bitflip", "Boundary", "Offbyone", "Stringlen", "Character", "Typeconfusion"] ∧
+    Gen.allMutatorsUnsafeExtra = ["Memoindex"] := by decide
+
+/-- batch mode writes exactly the names 0.pkl … (n-1).pkl -/
+theorem batch_names (n : Nat) : (batchFiles n).length = n ∧
+    ∀ i, i < n → (batchFiles n)[i]? = some (toString i ++ ".pkl") := by
+  constructor
+  · simp [batchFiles]
+  · intro i hi
+    simp [batchFiles, hi]
+
+/-- **C13 (Python).**  `set_opcode_range` changes the two knobs and nothing else — the seed given
+to the constructor stays in force, for any sequence of calls -/
+theorem py_setter_preserves (g : LibCfg) (mn mx : Nat) :
+    (pySetRange g mn mx).seed = g.seed ∧ (pySetRange g mn mx).cfg.version = g.cfg.version ∧
+    (pySetRange g mn mx).cfg.mutators = g.cfg.mutators ∧ (pySetRange g mn mx).cfg.rateBits = g.cfg.rateBits ∧
+    (pySetRange g mn mx).cfg.unsafeMut = g.cfg.unsafeMut ∧ (pySetRange g mn mx).cfg.allowExt = g.cfg.allowExt ∧
+    (pySetRange g mn mx).cfg.allowBuf = g.cfg.allowBuf ∧
+    (pySetRange g mn mx).cfg.minOps = mn ∧ (pySetRange g mn mx).cfg.maxOps = mx :=
+  ⟨rfl, rfl, rfl, rfl, rfl, rfl, rfl, rfl, rfl⟩
+
+/-- `mutate` returns the library's bytes, cut to `max_size` -/
+theorem mutate_trunc (b : List UInt8) (k : Nat) : pyMutate b k = b.take k := by
+  unfold pyMutate
+  split
+  · rename_i h; rw [List.take_of_length_le h]
+  · rfl
+
+/-- the pre-repair CLI did NOT forward `--unsafe-mutations` given alone … -/
+theorem legacy_cli_counterexample :
+    (Legacy.cliCfg { protocol := some 4, unsafeM := true } 5).cfg.unsafeMut ≠
+      (specCfg { protocol := some 4, unsafeM := true } 5).cfg.unsafeMut := by decide
+
+/-- … and the pre-repair `set_opcode_range` dropped the seed -/
+theorem legacy_py_counterexample :
+    (Legacy.pySetRange (pyNew 3 (some 7)) 60 300).seed ≠ (pyNew 3 (some 7)).seed := by decide
+
+end C13
 end PFV
